@@ -223,13 +223,31 @@ def executions(tier, seed):
         specials.append(('administrative record of unknown type, value: ' + label, 0x2, 0, bp7.enc([7, val]), None))
     for (bflags, kflags) in ((0x8, 0), (0x200000, 0), (0x200008 | 0x4, 0x8), (0x80, 0x20), (0x100000 | 0x40, 0x28 | 0x1)):
         specials.append(('reserved flag bits %#x / %#x' % (bflags, kflags), bflags, kflags, b'payload', None))
-    for (i, (label, bflags, kflags, pay, frag)) in enumerate(specials):
+    specials = [sp + (None, None) for sp in specials]
+    # blocks of the types the codec has a class for whose block-type-specific data is not what that class expects
+    # (e.g. ciphertext, because a confidentiality block targets it): any well-formed CBOR item of another kind,
+    # arrays of the wrong size, octets that are no CBOR at all; the block stays opaque and the bundle decodes
+    opaque = [('unsigned', bp7.enc(23)), ('negative', bp7.enc(-258)), ('byte string', bp7.enc(b'\xa1\xb2\xc3')),
+              ('text', bp7.enc('abc')), ('simple value', b'\xf5'), ('tagged integer', bytes.fromhex('d99a3717')),
+              ('float', bytes.fromhex('f93c00')), ('array of one', bp7.enc([1])), ('empty array', bp7.enc([])),
+              ('array of five', bp7.enc([1, 2, 3, 4, 5])), ('map', bp7.enc({1: 2})), ('no CBOR', b'\xff\x00\x13'),
+              ('two items', bp7.enc(1) + bp7.enc(2)), ('truncated', b'\x82\x01'), ('empty', b''),
+              ('EID of unknown scheme', bp7.enc([3, 'x'])), ('EID with integer part', bp7.enc([1, 5])),
+              ('ipn with text', bp7.enc([2, 'x']))]
+    for btype in (6, 7, 10, 11, 12):
+        for (label, data) in opaque:
+            specials.append(('block type %d with opaque data: %s' % (btype, label), 0, 0, b'payload', None, (btype, data), None))
+    # endpoint IDs whose dtn demux has characters a URI parser takes for a query or fragment
+    for eid in ('dtn://node/svc?x=1', 'dtn://node/svc#frag', 'dtn://node/a/b?q=1&r=2#f', 'dtn://node/?', 'dtn://node/~mc/x%20y'):
+        specials.append(('endpoint ID ' + eid, 0, 0, b'payload', None, None, eid))
+    for (i, (label, bflags, kflags, pay, frag, extblk, eid)) in enumerate(specials):
         for crc in (0, 1, 2):
-            prim = {'flags': bflags, 'crc_type': crc, 'dest': 'dtn://node/svc', 'src': 'ipn:1.2', 'rpt': 'dtn:none',
-                    'ts_time': 1000 + i, 'ts_seq': crc, 'lifetime': 3600}
+            prim = {'flags': bflags, 'crc_type': crc, 'dest': eid or 'dtn://node/svc', 'src': eid or 'ipn:1.2',
+                    'rpt': eid or 'dtn:none', 'ts_time': 1000 + i, 'ts_seq': crc, 'lifetime': 3600}
             if frag:
                 prim['frag_off'], prim['total'] = frag
-            blocks = [{'type': 192, 'num': 2, 'flags': kflags, 'crc_type': crc, 'data': bp7.enc([1])},
+            (xtype, xdata) = extblk or (192, bp7.enc([1]))
+            blocks = [{'type': xtype, 'num': 2, 'flags': kflags, 'crc_type': crc, 'data': xdata},
                       {'type': 1, 'num': 1, 'flags': kflags & ~0x1, 'crc_type': crc, 'data': pay}]
             want = want_fields(prim, blocks)
             octets2 = bp7.write_bundle(prim, blocks)
